@@ -592,6 +592,9 @@ _CT = "src/odfdo/container.py"
 _XP = "src/odfdo/xmlpart.py"
 _DOC = "src/odfdo/document.py"
 SEEDS = [
+    Seed("pretty_indent remembers which local names are textual", "fault", "src/odfdo/container.py",
+         "    tag = f\"{elem.prefix}:{elem.tag.rpartition('}')[2]}\"\n", "    tag = f\"{elem.prefix}:{elem.tag.rpartition('}')[2]}\"\n    _SEEN_TAGS.add(tag)\n", "R11m",
+         edits=[("src/odfdo/container.py", "def pretty_indent(", "_SEEN_TAGS: set = set()\n\n\ndef pretty_indent(")]),
     Seed("the flat-XML writer keeps one office:font-face-decls", "fault", _CT,
          "            for child in xpart:\n                root.append(child)", "            for child in xpart:\n                if child.tag.endswith(\"font-face-decls\") and len(root) > 4:\n                    continue\n                root.append(child)", "R11l"),
     Seed("XmlPart drops its tree when the container holds other bytes", "fault", _XP,
